@@ -80,6 +80,8 @@ fn push_frame(c: &mut ConnState, bytes: &[u8], ex: u64, pos: u64, planned: bool)
 const EVENT_BUDGET: usize = 40_000;
 
 pub struct Term {
+    // reply scripts per command kind (plan.scripts): the next command of that kind is answered by the next script of its queue
+    scripts: std::collections::HashMap<String, VecDeque<Value>>,
     call_mark: usize,
     runaway: bool,
     start: tokio::time::Instant,
@@ -131,6 +133,10 @@ const ACK: [u8; 3] = [0x80, 0x00, 0x00];
 /// Build the terminal's reply script for a command frame. Returns (frames after the Ack, outcome label, code).
 fn script_for(term: &mut Term, frame: &[u8], plan: &Value) -> (Vec<Vec<u8>>, String, Value) {
     let cf = (frame[0], frame[1]);
+    if let Some(script) = plan.get("script").and_then(|x| x.as_array()) {
+        // an explicit reply script: the frames as given, one per acknowledgement; the ledger is not touched
+        return (script.iter().map(bytes_of).collect(), "script".to_string(), Value::Null);
+    }
     let o = plan["o"].as_str().unwrap_or("ok").to_string();
     let code = plan.get("code").and_then(|c| c.as_u64()).unwrap_or(0) as u8;
     let mut frames: Vec<Vec<u8>> = vec![];
@@ -522,6 +528,8 @@ impl AsyncWrite for Conn {
                 }
                 c.hs_stage += 1;
                 hs.get(key).cloned().unwrap_or(json!({}))
+            } else if let Some(sc) = term.scripts.get_mut(name).and_then(|q| q.pop_front()) {
+                sc
             } else {
                 term.plan.pop_front().unwrap_or_else(|| term.default_plan.clone())
             };
@@ -744,6 +752,9 @@ pub fn run_scenario(sc: &Value) -> Value {
         let start = tokio::time::Instant::now();
         let tcfg = sc.get("term").cloned().unwrap_or(json!({}));
         let term: Shared = Arc::new(Mutex::new(Term {
+            scripts: sc["plan"].get("scripts").and_then(|m| m.as_object()).map(|m| {
+                m.iter().map(|(k, v)| (k.clone(), v.as_array().map(|a| a.iter().cloned().collect()).unwrap_or_default())).collect()
+            }).unwrap_or_default(),
             call_mark: 0,
             runaway: false,
             start,
@@ -807,6 +818,7 @@ pub fn run_scenario(sc: &Value) -> Value {
                         let s = (std::mem::take(&mut t.plan), std::mem::take(&mut t.handshake), t.events.len());
                         s
                     };
+                    let saved_scripts = std::mem::take(&mut term.lock().unwrap_or_else(|e| e.into_inner()).scripts);
                     if sc.get("start").and_then(|s| s.as_str()) == Some("disconnected") {
                         // the terminal closes every exchange during construction: the client ends up without a connection
                         term.lock().unwrap_or_else(|e| e.into_inner()).default_plan = json!({"o": "ok", "fault": {"pos": 1, "kind": "close"}});
@@ -823,6 +835,7 @@ pub fn run_scenario(sc: &Value) -> Value {
                     let mut t = term.lock().unwrap_or_else(|e| e.into_inner());
                     t.plan = saved.0;
                     t.handshake = saved.1;
+                    t.scripts = saved_scripts;
                     t.events.truncate(saved.2);
                     // the connection the constructed client holds: the last one opened, if it was not dropped
                     let alive = t.conns.last().map(|c| !c.lock().unwrap_or_else(|e| e.into_inner()).dropped).unwrap_or(false);
